@@ -48,6 +48,20 @@ def replay_dict(inputs, obl):
             break
         if want is not None and got is not want and got != want:
             problems.append(f"{src} -> {got!r}, expected {want!r}")
+    # large real keys that differ in the fraction are different keys; a join from the LEFT keeps a like-spelled key of the other kind
+    k = KlongInterpreter()
+    k('d:::{}')
+    for src, want in (('d,[123456.25 1]', None), ('d?123456.25', 1), ('d?123456', KLONG_UNDEFINED), ('[123456.4 2],d', None), ('#d', 2), ('d?123456.4', 2),
+                      ('123456.25_d', None), ('#d', 1), ('d?123456.4', 2),
+                      ('n:::{}', None), ('n,["name" 1]', None), ('[:name 2],n', None), ('#n', 2), ('n?"name"', 1), ('n?:name', 2),
+                      ('n,[:id 5]', None), ('["id" 6],n', None), ('#n', 4), ('n?:id', 5), ('n?"id"', 6), ('[:id 7],n', None), ('#n', 4), ('n?:id', 7)):
+        try:
+            got = k(src)
+        except Exception as e:
+            problems.append(f"{src} raised {type(e).__name__}: {e}")
+            break
+        if want is not None and got is not want and got != want:
+            problems.append(f"{src} -> {got!r}, expected {want!r}")
     # a dictionary is a shared object: updates through every alias (function parameter, application by @, each, over) are seen by all
     k = KlongInterpreter()
     k('d:::{[1 2]};g::{x,[5 6]};u::{x,y}')
